@@ -227,6 +227,11 @@ func serve(conn net.Conn, o outcome, content []byte, sha string) {
 	off := req.ByteOffset
 	ack := &protocol.FetchFileAckHeader{Status: "ok", SizeBytes: int64(len(content)) - off, SHA256: sha, ByteOffset: off}
 	var full []byte
+	// the serving side's offset validation (Coordinator.handleFetchFile step 5): a resume request at
+	// or beyond the end of the file is answered with bad_offset before any ok-ack
+	if off > 0 && off >= int64(len(content)) && o.kind != "err" && o.kind != "nop" && o.kind != "bad" {
+		o = outcome{"bad", 0}
+	}
 	switch o.kind {
 	case "err":
 		ack = &protocol.FetchFileAckHeader{Status: "error", Code: protocol.AckCodeBackend, Error: "backend exploded"}
@@ -464,6 +469,21 @@ func runCase(c *vh.Ctx, cs caseSpec) {
 					fmt.Sprintf("pulled++ while the final path holds %s", hexOpt(s.final)), canon.String())
 			}
 		}
+		// ---- convergence inside a call: the faults stopped and retries remained (the last two executed
+		// attempts each had a healthy first candidate peer), yet the call gave up
+		if cs.monitors && dFailed > 0 && nAtt >= 2 {
+			healthy := func(k int) bool { return k >= 0 && k < len(script) && len(script[k]) > 0 && script[k][0].kind == "ok" }
+			if healthy(nAtt-1) && healthy(nAtt-2) {
+				key := "not-converged-within-call:healthy-retries-exhausted:processEntry"
+				if end.part != nil && len(*end.part) >= len(cs.content) && end.st["bad_offset_server"] > before["bad_offset_server"] {
+					key = "not-converged:full-length-part-reused-as-resume-point"
+				}
+				c.Tag("not-converged-within-call")
+				c.Fail(key+suffix,
+					fmt.Sprintf("the last two attempts of the call had a healthy first peer, yet processEntry gave up (failed++): final=%s .part=%s bad_offset_server=%d; manifest bytes %s",
+						hexOpt(end.final), hexOpt(end.part), end.st["bad_offset_server"], vh.Hex(cs.content)), canon.String())
+			}
+		}
 		// ---- what was visible at the final path DURING the attempts of this call
 		w.omu.Lock()
 		trans := w.trans
@@ -590,7 +610,7 @@ func main() {
 		fmt.Fprintln(os.Stderr, "-facts required")
 		os.Exit(64)
 	}
-	factsLine = fmt.Sprintf("facts %d %d %d %d", bit("stat_part_fallback"), bit("delete_removes_part"), bit("presence_needs_final"), bit("promote_after_verdict"))
+	factsLine = fmt.Sprintf("facts %d %d %d %d %d", bit("stat_part_fallback"), bit("delete_removes_part"), bit("presence_needs_final"), bit("promote_after_verdict"), bit("resume_full_part"))
 	base, err := os.MkdirTemp("/var/tmp", "verif-c25-")
 	if err != nil {
 		panic(err)
@@ -605,6 +625,31 @@ func main() {
 	for _, n := range []int{1, 3} {
 		ct := contentOf(n, 0)
 		runCase(c, caseSpec{content: ct, maxA: 3, hist: [][][]outcome{single([]outcome{{"c", 0}, {"ok", 0}, {"ok", 0}})}, monitors: true})
+	}
+
+	// (0b) one full-length corrupted transfer, then fault-free retries inside the same call — from the
+	// empty replica and from staging files of size n-1, n, n+1 left by a crash
+	for _, n := range []int{1, 2, 3} {
+		ct := contentOf(n, byte(0x20+n))
+		over := append(append([]byte{}, ct...), 0x7f)
+		parts := []struct {
+			p   *[]byte
+			mon bool
+		}{{nil, true}, {func() *[]byte { x := append([]byte{}, ct[:n-1]...); return &x }(), true},
+			{func() *[]byte { x := append([]byte{}, ct...); return &x }(), false}, {&over, false}}
+		for _, pt := range parts {
+			for i := 0; i < n; i++ {
+				for _, first := range []outcome{{"c", i}, {"dial", 0}, {"t", n - 1}} {
+					for _, k := range []int{3, 4} {
+						sc := []outcome{first}
+						for len(sc) < k {
+							sc = append(sc, outcome{"ok", 0})
+						}
+						runCase(c, caseSpec{content: ct, maxA: k, part: pt.p, hist: [][][]outcome{single(sc)}, monitors: pt.mon})
+					}
+				}
+			}
+		}
 	}
 
 	// (1) exhaustive grids: every outcome sequence, three file sizes, every initial state
